@@ -223,6 +223,27 @@ func Enumerate(thorough bool, yield func(idx int, c Case)) int {
 			}
 		}
 	}
+	// the pooled connection dies while idle between two units (outside any global transaction)
+	{
+		kill := Unit{Ops: []Op{{Name: "kill-connections", Kind: "kill"}}}
+		var ab []Unit
+		for _, u := range us {
+			if len(u.Ops) == 1 && u.Opt == "" && (u.Tx == "" || u.Tx == "commit") {
+				switch u.Ops[0].Name {
+				case "q-all", "upd-bound", "ins-auto", "prep-upd":
+					ab = append(ab, u)
+				}
+			}
+		}
+		for _, params := range []string{"ip", "noip"} {
+			for _, a := range ab {
+				for _, b := range ab {
+					yield(idx, Case{Units: []Unit{a, kill, b}, Mode: "outside", Params: params})
+					idx++
+				}
+			}
+		}
+	}
 	// mixed: global and plain work alternate on one handle (pool or pinned connection)
 	pick := func(name string) Op {
 		for _, o := range ops() {
@@ -319,6 +340,15 @@ func runOp(ctx context.Context, r runner, o Op) (res OpResult) {
 		}
 	}
 	switch o.Kind {
+	case "kill":
+		// every server-side connection dies while the handle is idle (a restart, an idle timeout): the next statement must be
+		// served on a fresh connection, as with the bare driver
+		if curSrv != nil {
+			// as with the real driver, a statement written to a connection the server dropped silently is not retried
+			// ('invalid connection'); only the session reset database/sql does before reusing a pooled connection notices
+			curSrv.DeadConnErr = mysql.ErrInvalidConn
+			curSrv.Crash()
+		}
 	case "exec":
 		rs, err := r.ExecContext(ctx, o.SQL, o.Args...)
 		setErr(err)
@@ -384,6 +414,9 @@ func runOp(ctx context.Context, r runner, o Op) (res OpResult) {
 	}
 	return res
 }
+
+// curSrv is the database of the side being run (for the "kill" operation).
+var curSrv *memdb.Server
 
 type handle interface {
 	runner
@@ -557,6 +590,9 @@ func runSide(e *sys.Env, db *sql.DB, c Case, global bool) (sideRun, error) {
 	if err := initAll(e); err != nil {
 		return sr, err
 	}
+	curSrv = e.Srv
+	e.Srv.DeadConnErr = nil
+	defer func() { e.Srv.DeadConnErr = nil }()
 	var h handle = db
 	var conn *sql.Conn
 	if c.Pinned {
